@@ -10,7 +10,9 @@ ROOT = os.path.dirname(os.path.dirname(os.path.dirname(
     os.path.abspath(__file__))))
 FUNCS = [('modeling.py', 'contracts.py.lin_spec', '_lin._addterm'),
          ('modeling.py', 'contracts.py.lin_spec', '_lin.__len__'),
-         ('modeling.py', 'contracts.py.function_spec', '_function.__imul__')]
+         ('modeling.py', 'contracts.py.function_spec', '_function.__imul__'),
+         ('modeling.py', 'contracts.py.function_spec', '_function.__iadd__'),
+         ('modeling.py', 'contracts.py.function_spec', '_function.__isub__')]
 
 
 class Battery:
@@ -59,6 +61,8 @@ def make_replayer():
             want.append('addterm-value')
         if ob.kind == 'imul-returns-self':
             want.append('imul-value')
+        if ob.kind.startswith('iaddsub'):
+            want = ['iaddsub-value']
         if ob.kind == 'len-value':
             want = ['len-value', 'addterm-value', 'addterm-exceptions']
         hits = {k: v for k, v in bat.result.items() if k in want}
